@@ -6,10 +6,16 @@
      2. MComp u t v         for every component of such an entity whose type is registered for sync
                             and not excluded on that entity (SkinnedMesh in its wire form);
      3. MParented u pu      for every such entity with a Parent, both ends tracked;
-     4. MAsset c a (p_id)   for every stored asset of an enabled class, and the returned state
-                            serves it (h_cache); MMaterial a v for every stored material when
-                            materials are enabled (the default material id 0 is not special here:
-                            snapshot_material_msgs lists every entry of kind KMaterial);
+     4. MAsset c a (p_id)   for every stored asset of an enabled class no download of whose id is
+                            under way (d_pending), and the returned state serves it (h_cache);
+        MAsset c a o        for every id of an enabled class with a download under way — whether or not
+                            a copy is stored — where o is the owner named by the LATEST pending request
+                            of the id (since the repair of S26, 8b1d5d0); such an id is announced once,
+                            not also as this peer's own, and is not (re-)served by the call;
+                            conversely every MAsset of the snapshot is one of these two;
+        MMaterial a v       for every stored material when materials are enabled (the default
+                            material id 0 is not special here: snapshot_material_msgs lists every
+                            entry of kind KMaterial);
      5. order               all MSpawn first: the list is spawns ++ rest with only spawns in the
                             first part and no spawn in the second.
    As in snapshot_opted the uuid is the one of entity_to_uuid (t_e2u), not the one inside the
@@ -132,50 +138,47 @@ Qed.
 
 (* ---------- assets --------------------------------------------------------------------------------- *)
 
-Lemma kind_num_lt k : kind_num k < 4.
-Proof. destruct k as [|[]]; cbn; lia. Qed.
-Lemma akey_mod k a : akey k a `mod` 4 = kind_num k.
-Proof. unfold akey. symmetry. apply (N.mod_unique _ 4 a); [apply kind_num_lt|reflexivity]. Qed.
-Lemma akey_div k a : akey k a `div` 4 = a.
-Proof. unfold akey. symmetry. apply (N.div_unique _ 4 a (kind_num k)); [apply kind_num_lt|reflexivity]. Qed.
-Lemma akey_inj k a a' : akey k a = akey k a' -> a = a'.
-Proof. intros H. rewrite <- (akey_div k a), <- (akey_div k a'), H. reflexivity. Qed.
-Lemma akey_kind_ne k k' a a' : kind_num k <> kind_num k' -> akey k a <> akey k' a'.
-Proof. intros Hne H. apply Hne. rewrite <- (akey_mod k a), <- (akey_mod k' a'), H. reflexivity. Qed.
-
-(* assets_of_kind lists exactly the store entries of that kind *)
-Lemma assets_of_kind_In pr k a v :
-  In (a, v) (assets_of_kind pr k) <-> a_store pr !! akey k a = Some v.
-Proof.
-  unfold assets_of_kind. rewrite <- elem_of_list_In, elem_of_list_omap. split.
-  - intros ([key v'] & Hin & Hf). apply elem_of_map_to_list in Hin.
-    destruct (key `mod` 4 =? kind_num k) eqn:Em; [|discriminate]. injection Hf as <- <-.
-    apply N.eqb_eq in Em.
-    assert (Hk : key = akey k (key `div` 4)).
-    { unfold akey. rewrite <- Em. apply (N.div_mod' key 4). }
-    rewrite <- Hk. exact Hin.
-  - intros Hl. exists (akey k a, v). split; [apply elem_of_map_to_list; exact Hl|].
-    rewrite akey_mod, N.eqb_refl, akey_div. reflexivity.
-Qed.
+(* kind_num_lt, akey_mod, akey_div, akey_inj, akey_kind_ne and assets_of_kind_In (assets_of_kind lists
+   exactly the store entries of that kind) are in OptInLemmas.v *)
 
 (* serve_all changes the download cache only *)
 Definition same_assets (pr pr' : peer_state) : Prop :=
   a_store pr' = a_store pr /\ t_mat pr' = t_mat pr /\ t_mesh pr' = t_mesh pr /\ t_audio pr' = t_audio pr /\
-  p_id pr' = p_id pr.
+  p_id pr' = p_id pr /\ d_pending pr' = d_pending pr.
+Lemma same_assets_refl a : same_assets a a.
+Proof. repeat split; reflexivity. Qed.
 Lemma same_assets_trans a b c : same_assets a b -> same_assets b c -> same_assets a c.
-Proof. unfold same_assets. intros (?&?&?&?&?) (?&?&?&?&?). repeat split; congruence. Qed.
+Proof. unfold same_assets. intros (?&?&?&?&?&?) (?&?&?&?&?&?). repeat split; congruence. Qed.
 Lemma serve_all_same pr c : same_assets pr (serve_all pr c).1.
 Proof. unfold serve_all. destruct (class_enabled pr (KClass c)); repeat split; reflexivity. Qed.
 Lemma same_assets_enabled pr pr' k : same_assets pr pr' -> class_enabled pr' k = class_enabled pr k.
 Proof. intros (_ & Hm & Hme & Ha & _). unfold class_enabled. destruct k as [|[]]; assumption. Qed.
+Lemma same_assets_pending_of pr pr' c : same_assets pr pr' -> pending_of pr' c = pending_of pr c.
+Proof. intros (_ & _ & _ & _ & _ & Hp). unfold pending_of. rewrite Hp. reflexivity. Qed.
+Lemma same_assets_download_pending pr pr' c a :
+  same_assets pr pr' -> download_pending pr' c a <-> download_pending pr c a.
+Proof. intros (_ & _ & _ & _ & _ & Hp). unfold download_pending. rewrite Hp. reflexivity. Qed.
 
+(* an asset with no download under way is announced as this peer's own *)
 Lemma serve_all_In pr c a v :
   class_enabled pr (KClass c) = true -> a_store pr !! akey (KClass c) a = Some v ->
+  ~ download_pending pr c a ->
   In (MAsset c a (p_id pr)) (serve_all pr c).2.
 Proof.
-  intros He Hl. unfold serve_all. rewrite He. cbn [snd].
+  intros He Hl Hn. rewrite (serve_all_enabled pr c He). cbn [snd]. apply in_or_app. left.
   apply elem_of_list_In, elem_of_list_fmap. exists (a, v).
-  split; [reflexivity|]. apply elem_of_list_In, assets_of_kind_In. exact Hl.
+  split; [reflexivity|]. apply elem_of_list_In, served_assets_In. split; [|exact Hn].
+  apply assets_of_kind_In. exact Hl.
+Qed.
+
+(* every id under download is announced with the owner its latest request names *)
+Lemma serve_all_In_pending pr c a o :
+  class_enabled pr (KClass c) = true -> In (a, o) (pending_of pr c) ->
+  In (MAsset c a o) (serve_all pr c).2.
+Proof.
+  intros He Hp. rewrite (serve_all_enabled pr c He). cbn [snd]. apply in_or_app. right.
+  apply elem_of_list_In, elem_of_list_fmap. exists (a, o).
+  split; [reflexivity|apply elem_of_list_In; exact Hp].
 Qed.
 
 (* the cache after inserting a functional association list *)
@@ -195,70 +198,185 @@ Proof.
     intros a' v1 v2 H1 H2. apply (Hfun a'); apply in_or_app; left; assumption.
 Qed.
 Lemma fold_cache_other k (l : list (uuid * N)) key : forall (h : gmap N N),
-  (forall a, key <> akey k a) ->
+  (forall a v, In (a, v) l -> key <> akey k a) ->
   foldl (fun h '(a, v) => <[akey k a := v]> h) h l !! key = h !! key.
 Proof.
   induction l as [|[a0 v0] l IH]; intros h Hk; [reflexivity|].
-  cbn [foldl]. rewrite IH by exact Hk. apply lookup_insert_ne. intros Heq. exact (Hk a0 (eq_sym Heq)).
+  cbn [foldl]. rewrite IH by (intros a v Hin; apply (Hk a v); right; exact Hin).
+  apply lookup_insert_ne. intros Heq. exact (Hk a0 v0 (or_introl eq_refl) (eq_sym Heq)).
 Qed.
 
 Lemma serve_all_cache_hit pr c a v :
   class_enabled pr (KClass c) = true -> a_store pr !! akey (KClass c) a = Some v ->
+  ~ download_pending pr c a ->
   h_cache (serve_all pr c).1 !! akey (KClass c) a = Some v.
 Proof.
-  intros He Hl. unfold serve_all. rewrite He. cbn [fst].
-  change (foldl (fun h '(a, v) => <[akey (KClass c) a := v]> h) (h_cache pr) (assets_of_kind pr (KClass c))
+  intros He Hl Hn. rewrite (serve_all_enabled pr c He). cbn [fst].
+  change (foldl (fun h '(a, v) => <[akey (KClass c) a := v]> h) (h_cache pr) (served_assets pr c)
             !! akey (KClass c) a = Some v).
-  apply fold_cache_hit; [|apply assets_of_kind_In; exact Hl].
-  intros a' v1 v2 H1 H2. apply assets_of_kind_In in H1, H2. congruence.
+  apply fold_cache_hit.
+  - intros a' v1 v2 H1 H2. apply served_assets_In in H1 as [H1 _], H2 as [H2 _].
+    apply assets_of_kind_In in H1, H2. congruence.
+  - apply served_assets_In. split; [apply assets_of_kind_In; exact Hl|exact Hn].
 Qed.
 Lemma serve_all_cache_other pr c key :
   (forall a, key <> akey (KClass c) a) -> h_cache (serve_all pr c).1 !! key = h_cache pr !! key.
 Proof.
-  intros Hk. unfold serve_all. destruct (class_enabled pr (KClass c)); [|reflexivity]. cbn [fst].
-  change (foldl (fun h '(a, v) => <[akey (KClass c) a := v]> h) (h_cache pr) (assets_of_kind pr (KClass c))
+  intros Hk. destruct (class_enabled pr (KClass c)) eqn:He.
+  2:{ unfold serve_all. rewrite He. reflexivity. }
+  rewrite (serve_all_enabled pr c He). cbn [fst].
+  change (foldl (fun h '(a, v) => <[akey (KClass c) a := v]> h) (h_cache pr) (served_assets pr c)
             !! key = h_cache pr !! key).
-  apply fold_cache_other. exact Hk.
+  apply fold_cache_other. intros a v _. apply Hk.
+Qed.
+(* an id under download is not (re-)served by the call: what the endpoint answers for it is unchanged *)
+Lemma serve_all_cache_pending pr c a :
+  download_pending pr c a ->
+  h_cache (serve_all pr c).1 !! akey (KClass c) a = h_cache pr !! akey (KClass c) a.
+Proof.
+  intros Hp. destruct (class_enabled pr (KClass c)) eqn:He.
+  2:{ unfold serve_all. rewrite He. reflexivity. }
+  rewrite (serve_all_enabled pr c He). cbn [fst].
+  change (foldl (fun h '(a, v) => <[akey (KClass c) a := v]> h) (h_cache pr) (served_assets pr c)
+            !! akey (KClass c) a = h_cache pr !! akey (KClass c) a).
+  apply fold_cache_other. intros a' v Hin Heq. apply akey_inj in Heq. subst a'.
+  apply served_assets_In in Hin as [_ Hn]. exact (Hn Hp).
 Qed.
 
 Lemma class_key_other c c' a : c <> c' -> forall a', akey (KClass c) a <> akey (KClass c') a'.
 Proof. intros Hne a'. apply akey_kind_ne. destruct c, c'; cbn; congruence. Qed.
 
+(* the state in which the part of class c is computed: images first, then meshes, then audio *)
+Definition at_class (pr : peer_state) (c : aclass) : peer_state :=
+  match c with
+  | AImage => pr
+  | AMesh => (serve_all pr AImage).1
+  | AAudio => (serve_all (serve_all pr AImage).1 AMesh).1
+  end.
+
+Lemma at_class_same pr c : same_assets pr (at_class pr c).
+Proof.
+  destruct c; cbn [at_class].
+  - apply serve_all_same.
+  - apply same_assets_refl.
+  - eapply same_assets_trans; apply serve_all_same.
+Qed.
+
+Lemma class_part_In pr c m : In m (serve_all (at_class pr c) c).2 -> In m (build_full_sync pr).2.
+Proof.
+  intros H. rewrite build_full_sync_snd. apply in_or_app. right. apply in_or_app. right.
+  destruct c; cbn [at_class] in H.
+  - apply in_or_app. right. apply in_or_app. right. apply in_or_app. left. exact H.
+  - apply in_or_app. left. exact H.
+  - apply in_or_app. right. apply in_or_app. right. apply in_or_app. right. exact H.
+Qed.
+
+(* the cache entries of class c after the whole call are those written by the part of class c *)
+Lemma class_part_cache pr c a :
+  h_cache (build_full_sync pr).1 !! akey (KClass c) a =
+  h_cache (serve_all (at_class pr c) c).1 !! akey (KClass c) a.
+Proof.
+  rewrite build_full_sync_fst. destruct c; cbn [at_class].
+  - rewrite serve_all_cache_other by (apply class_key_other; discriminate). reflexivity.
+  - rewrite serve_all_cache_other by (apply class_key_other; discriminate).
+    rewrite serve_all_cache_other by (apply class_key_other; discriminate). reflexivity.
+  - reflexivity.
+Qed.
+Lemma at_class_cache pr c a :
+  h_cache (at_class pr c) !! akey (KClass c) a = h_cache pr !! akey (KClass c) a.
+Proof.
+  destruct c; cbn [at_class].
+  - rewrite serve_all_cache_other by (apply class_key_other; discriminate). reflexivity.
+  - reflexivity.
+  - rewrite serve_all_cache_other by (apply class_key_other; discriminate).
+    rewrite serve_all_cache_other by (apply class_key_other; discriminate). reflexivity.
+Qed.
+
+(* 4a. every stored asset of an enabled class is announced: as this peer's own, and served by the
+   returned state, when no download of its id is under way; with the owner named by the latest pending
+   request otherwise *)
 Theorem snapshot_complete_asset pr c a v :
   class_enabled pr (KClass c) = true -> a_store pr !! akey (KClass c) a = Some v ->
-  In (MAsset c a (p_id pr)) (build_full_sync pr).2 /\
-  h_cache (build_full_sync pr).1 !! akey (KClass c) a = Some v.
+  (~ download_pending pr c a ->
+     In (MAsset c a (p_id pr)) (build_full_sync pr).2 /\
+     h_cache (build_full_sync pr).1 !! akey (KClass c) a = Some v) /\
+  (download_pending pr c a ->
+     exists o, In (a, o) (pending_of pr c) /\ latest_owner pr c a o /\
+               In (MAsset c a o) (build_full_sync pr).2).
 Proof.
-  intros He Hl.
-  pose proof (serve_all_same pr AImage) as S1. set (pr1 := (serve_all pr AImage).1) in *.
-  pose proof (same_assets_trans _ _ _ S1 (serve_all_same pr1 AMesh)) as S2.
-  set (pr2 := (serve_all pr1 AMesh).1) in *.
-  assert (He1 : class_enabled pr1 (KClass c) = true) by (rewrite (same_assets_enabled _ _ _ S1); exact He).
-  assert (He2 : class_enabled pr2 (KClass c) = true) by (rewrite (same_assets_enabled _ _ _ S2); exact He).
-  assert (Hl1 : a_store pr1 !! akey (KClass c) a = Some v) by (rewrite (proj1 S1); exact Hl).
-  assert (Hl2 : a_store pr2 !! akey (KClass c) a = Some v) by (rewrite (proj1 S2); exact Hl).
-  assert (Hid1 : p_id pr1 = p_id pr) by apply S1.
-  assert (Hid2 : p_id pr2 = p_id pr) by apply S2.
+  intros He Hl. pose proof (at_class_same pr c) as S. set (pr' := at_class pr c) in *.
+  assert (He' : class_enabled pr' (KClass c) = true) by (rewrite (same_assets_enabled _ _ _ S); exact He).
+  assert (Hl' : a_store pr' !! akey (KClass c) a = Some v) by (rewrite (proj1 S); exact Hl).
+  assert (Hid : p_id pr' = p_id pr) by apply S.
   split.
-  - rewrite build_full_sync_snd. fold pr1. fold pr2.
-    apply in_or_app. right. apply in_or_app. right.
-    destruct c.
-    + (* AMesh: served from pr1 *)
-      apply in_or_app. right. apply in_or_app. right. apply in_or_app. left.
-      rewrite <- Hid1. apply (serve_all_In pr1 AMesh a v He1 Hl1).
-    + (* AImage: served from pr *)
-      apply in_or_app. left. apply (serve_all_In pr AImage a v He Hl).
-    + (* AAudio: served from pr2 *)
-      apply in_or_app. right. apply in_or_app. right. apply in_or_app. right.
-      rewrite <- Hid2. apply (serve_all_In pr2 AAudio a v He2 Hl2).
-  - rewrite build_full_sync_fst. fold pr1. fold pr2.
-    destruct c.
-    + rewrite serve_all_cache_other by (apply class_key_other; discriminate).
-      apply (serve_all_cache_hit pr1 AMesh a v He1 Hl1).
-    + rewrite serve_all_cache_other by (apply class_key_other; discriminate).
-      unfold pr2. rewrite serve_all_cache_other by (apply class_key_other; discriminate).
-      apply (serve_all_cache_hit pr AImage a v He Hl).
-    + apply (serve_all_cache_hit pr2 AAudio a v He2 Hl2).
+  - intros Hn. assert (Hn' : ~ download_pending pr' c a) by (rewrite (same_assets_download_pending _ _ _ _ S); exact Hn).
+    split.
+    + apply (class_part_In pr c). fold pr'. rewrite <- Hid. apply (serve_all_In pr' c a v He' Hl' Hn').
+    + rewrite class_part_cache. fold pr'. apply (serve_all_cache_hit pr' c a v He' Hl' Hn').
+  - intros Hp. apply pending_of_ids in Hp as (o & Ho). exists o. split; [exact Ho|].
+    split; [apply pending_of_latest; exact Ho|].
+    apply (class_part_In pr c). fold pr'. apply serve_all_In_pending; [exact He'|].
+    rewrite (same_assets_pending_of _ _ _ S). exact Ho.
+Qed.
+
+(* 4b. every id of an enabled class with a download under way is announced, with the owner named by the
+   latest pending request — whether or not this peer holds a copy of the asset *)
+Theorem snapshot_complete_pending pr c a :
+  class_enabled pr (KClass c) = true -> download_pending pr c a ->
+  exists o, In (a, o) (pending_of pr c) /\ latest_owner pr c a o /\
+            In (MAsset c a o) (build_full_sync pr).2.
+Proof.
+  intros He Hp. pose proof (at_class_same pr c) as S.
+  apply pending_of_ids in Hp as (o & Ho). exists o. split; [exact Ho|].
+  split; [apply pending_of_latest; exact Ho|].
+  apply (class_part_In pr c). apply serve_all_In_pending.
+  - rewrite (same_assets_enabled _ _ _ S). exact He.
+  - rewrite (same_assets_pending_of _ _ _ S). exact Ho.
+Qed.
+
+(* ... and such an id is not (re-)served by the call *)
+Theorem snapshot_pending_not_reserved pr c a :
+  download_pending pr c a ->
+  h_cache (build_full_sync pr).1 !! akey (KClass c) a = h_cache pr !! akey (KClass c) a.
+Proof.
+  intros Hp. pose proof (at_class_same pr c) as S.
+  rewrite class_part_cache, serve_all_cache_pending, at_class_cache; [reflexivity|].
+  rewrite (same_assets_download_pending _ _ _ _ S). exact Hp.
+Qed.
+
+(* 4c. conversely, every announcement of the snapshot is one of the two: (own endpoint, stored, no
+   download under way, served afterwards) or (download under way, owner of its latest request) *)
+Theorem snapshot_asset_justified pr c a o :
+  In (MAsset c a o) (build_full_sync pr).2 ->
+  class_enabled pr (KClass c) = true /\
+  ((o = p_id pr /\ ~ download_pending pr c a /\
+    exists v, a_store pr !! akey (KClass c) a = Some v /\
+              h_cache (build_full_sync pr).1 !! akey (KClass c) a = Some v) \/
+   (In (a, o) (pending_of pr c) /\ latest_owner pr c a o)).
+Proof.
+  intros Hin. apply build_full_sync_msgs in Hin as [H|[H|[H|H]]].
+  - destruct H as (e & en & _ & Hm). apply snapshot_entity_msgs_In in Hm as (su & u & _ & _ & Hm).
+    destruct Hm as [Hm|(t & c0 & _ & _ & _ & Hm)]; [discriminate Hm|]. destruct (c_val c0); discriminate Hm.
+  - destruct H as (e & en & _ & Hm).
+    apply snapshot_parent_msgs_In in Hm as (su & q & tk & u & pu & _ & _ & _ & _ & Hm). discriminate Hm.
+  - destruct H as (_ & a' & v & Hm). discriminate Hm.
+  - destruct H as (c' & a' & o' & He & Heq & Hj). injection Heq as <- <- <-. split; [exact He|].
+    destruct Hj as [(-> & Hn & v & Hv)|Hp].
+    + left. split; [reflexivity|]. split; [exact Hn|]. exists v. apply assets_of_kind_In in Hv.
+      split; [exact Hv|]. exact (proj2 (proj1 (snapshot_complete_asset pr c a v He Hv) Hn)).
+    + right. split; [exact Hp|apply pending_of_latest; exact Hp].
+Qed.
+
+(* each id is announced once: an id under download is not also announced as this peer's own *)
+Corollary snapshot_asset_owner_unique pr c a o o' :
+  In (MAsset c a o) (build_full_sync pr).2 -> In (MAsset c a o') (build_full_sync pr).2 -> o = o'.
+Proof.
+  intros H1 H2. apply snapshot_asset_justified in H1 as [_ H1], H2 as [_ H2].
+  destruct H1 as [(-> & Hn & _)|[Hp _]], H2 as [(-> & Hn' & _)|[Hp' _]].
+  - reflexivity.
+  - exfalso. apply Hn. apply pending_of_ids. exists o'. exact Hp'.
+  - exfalso. apply Hn'. apply pending_of_ids. exists o. exact Hp.
+  - exact (pending_of_fun _ _ _ _ _ Hp Hp').
 Qed.
 
 (* materials travel inline; every stored material is listed, the default one (id 0) included *)
@@ -308,7 +426,7 @@ Qed.
 Lemma serve_all_nospawn pr c : Forall (fun m => is_spawn m = false) (serve_all pr c).2.
 Proof.
   unfold serve_all. destruct (class_enabled pr (KClass c)); [|constructor]. cbn [snd].
-  apply Forall_fmap, Forall_forall. intros [a v] _. reflexivity.
+  apply Forall_app; split; apply Forall_fmap, Forall_forall; intros [a v] _; reflexivity.
 Qed.
 
 Lemma material_msgs_nospawn pr : Forall (fun m => is_spawn m = false) (snapshot_material_msgs pr).
@@ -388,11 +506,52 @@ Example ex_snapshot_serves :
   h_cache (build_full_sync ex_state).1 !! akey (KClass AAudio) 2 = None.
 Proof. vm_compute. repeat split; reflexivity. Qed.
 
+(* the same state while downloads are under way: mesh 9 (a copy is stored, and an older copy is served)
+   was requested from 3 and later from 4, mesh 12 (no copy yet) from 3, audio 2 from 3 (audio is not
+   enabled); mesh 10 is stored and not under download.  Mesh 10 is announced as this peer's own and
+   served; 12 and 9 are announced with the owner of their latest request; what the endpoint answers
+   for mesh 9 stays as it was *)
+Definition ex_state_pending : peer_state :=
+  ex_state <| d_pending := [(AMesh, 9, 3); (AMesh, 12, 3); (AMesh, 9, 4); (AAudio, 2, 3)] |>
+           <| a_store ::= <[akey (KClass AMesh) 10 := 78]> |>
+           <| h_cache := {[ akey (KClass AMesh) 9 := 70 ]} |>.
+Example ex_snapshot_pending :
+  (build_full_sync ex_state_pending).2 =
+    [MSpawn 50; MSpawn 60;
+     MComp 50 T_A (VN 3); MComp 50 T_MAPPER (VMapper [60] [1]);
+     MParented 50 60;
+     MAsset AImage 4 0; MMaterial 0 500; MMaterial 3 31;
+     MAsset AMesh 10 0; MAsset AMesh 12 3; MAsset AMesh 9 4].
+Proof. vm_compute. reflexivity. Qed.
+Example ex_snapshot_pending_serves :
+  h_cache (build_full_sync ex_state_pending).1 !! akey (KClass AMesh) 10 = Some 78 /\
+  h_cache (build_full_sync ex_state_pending).1 !! akey (KClass AMesh) 9 = Some 70 /\
+  h_cache (build_full_sync ex_state_pending).1 !! akey (KClass AMesh) 12 = None.
+Proof. vm_compute. repeat split; reflexivity. Qed.
+
+(* the statement of snapshot_complete_asset as it was before the repair of S26 (every stored asset of an
+   enabled class is announced as this peer's own and served afterwards) is false now: mesh 9 above *)
+Example snapshot_complete_asset_unconditional_refuted :
+  exists pr c a v,
+    class_enabled pr (KClass c) = true /\ a_store pr !! akey (KClass c) a = Some v /\
+    ~ In (MAsset c a (p_id pr)) (build_full_sync pr).2 /\
+    h_cache (build_full_sync pr).1 !! akey (KClass c) a <> Some v.
+Proof.
+  exists ex_state_pending, AMesh, 9, 77. split; [reflexivity|]. split; [vm_compute; reflexivity|]. split.
+  - rewrite ex_snapshot_pending. intros H. repeat (destruct H as [H|H]; [discriminate H|]). destruct H.
+  - vm_compute. discriminate.
+Qed.
+
 Print Assumptions snapshot_complete_spawn.
 Print Assumptions snapshot_complete_comp.
 Print Assumptions snapshot_complete_comp_memN.
 Print Assumptions snapshot_complete_parent.
 Print Assumptions snapshot_complete_asset.
+Print Assumptions snapshot_complete_pending.
+Print Assumptions snapshot_pending_not_reserved.
+Print Assumptions snapshot_asset_justified.
+Print Assumptions snapshot_asset_owner_unique.
+Print Assumptions snapshot_complete_asset_unconditional_refuted.
 Print Assumptions snapshot_complete_material.
 Print Assumptions snapshot_spawns_first.
 Print Assumptions snapshot_nothing_before_a_spawn.
